@@ -10,7 +10,7 @@ import (
 
 // ---- filter configurations ---------------------------------------------------------------------------
 
-// 40 fixed configurations (index = tag cfg:kNN); every one is exercised in the quick tier.
+// 46 fixed configurations (index = tag cfg:kNN); every one is exercised in the quick tier.
 var scopeCfgs = []scInput{
 	{},                          // 0 defaults only (archive.org, archive-it.org)
 	{EH: []string{"ads."}},      // 1
@@ -53,13 +53,22 @@ var scopeCfgs = []scInput{
 	{RF: [][]string{{}, {}}},                                      // only empty files
 	{RE: []string{`\.png$`, `\.css`}, RF: [][]string{{`zzz-never`}}}, // the last file matches nothing
 	{IH: []string{"example"}, RE: []string{`^http://`}, RF: [][]string{{`logout`}, {``}, {`never-zzz`}}},
+	// letter case: the string filters are byte-exact (paths and queries are case-sensitive) ...
+	{ES: []string{"/Private/", "sessionID="}}, // 40: /private/ and sessionid= stay in scope
+	{IS: []string{"/Docs/"}},                  // /docs/ is not admitted
+	{ES: []string{"LOGOUT", "/tmp/"}},         // /logout stays in scope, /LOGOUT is excluded
+	{IS: []string{"/KEEP/", ".PNG"}, ES: []string{"sessionID="}},
+	// ... and so are the host filters, but ada lower-cases every host: an entry with an upper-case
+	// letter can never match (what the code does today)
+	{EH: []string{"Example.COM", "ADS."}}, // excludes nothing
+	{IH: []string{"Example.com"}},         // 45: admits nothing
 }
 
 var (
 	poolIH = []string{"example.com", "a.example", "b.example", "cdn.", ":8080", "example", "archive.org", "", "xn--"}
-	poolIS = []string{"/keep/", ".png", ".css", "https://", "?id=", "user", "%41"}
-	poolEH = []string{"ads.", "b.example", "evil", "example.com:8080", "127.0.0.2", "xn--", ".", "cdn.example.com", "archive.org", "EXAMPLE", "bad"}
-	poolES = []string{"logout", "/private/", ".pdf", "%20", "#", "", "id=7", "@"}
+	poolIS = []string{"/Docs/", "/KEEP/", "/keep/", ".png", ".css", "https://", "?id=", "user", "%41"}
+	poolEH = []string{"Example.COM", "ads.", "b.example", "evil", "example.com:8080", "127.0.0.2", "xn--", ".", "cdn.example.com", "archive.org", "EXAMPLE", "bad"}
+	poolES = []string{"/Private/", "sessionID=", "LOGOUT", "logout", "/private/", ".pdf", "%20", "#", "", "id=7", "@"}
 	poolRE = []string{`\?flag=$`, `\?flag$`, `\+`, `\.pdf$`, `^https?://[^/]*\.bad\.`, `/private/`, `(?i)logout`, `[0-9]{4}`, `^http://`, ``, `\.(png|css)(\?|$)`, `@`}
 )
 
@@ -91,11 +100,14 @@ var (
 	pathsPool = []string{"", "/", "/a.png", "/keep/a.png", "/private/x.html", "/doc.pdf", "/doc.pdf?x=1", "/logout", "/LogOut",
 		"/a/b/../c.css", "/p%41th/x", "/a b/c", "/é.png", "/2024/img.png", "/x?id=7", "/keep/x#frag", "//double", "/%2e%2e/x",
 		"/a;b=c", "/x?u=http://archive.org/", "/x?next=logout", "/x.css?v=1", "/?", "/#", "?q=1", "#top", "/x?a=1&b=2",
-		"/x?flag", "/y.png?flag", "/z?a=b c", "/z?b=2&a=1", "/w|x.png", "/z?flag=&k"}
+		"/x?flag", "/y.png?flag", "/z?a=b c", "/z?b=2&a=1", "/w|x.png", "/z?flag=&k",
+		"/Private/x.html", "/PRIVATE/x.html", "/Docs/a.css", "/docs/old.css", "/login?sessionID=abc123", "/login?sessionid=abc123",
+		"/LOGOUT", "/KEEP/a.png", "/keep/B.PNG", "/tmp/x.png", "/Tmp/x.png"}
 	userinfos = []string{"", "", "", "", "", "", "", "", "", "", "user@", "user:pw@", "archive.org@", "ads.@", "a%40b@", "@"}
 	ports     = []string{"", "", "", "", "", "", "", "", ":80", ":443", ":8080", ":8080", ":0", ":65535", ":99999", ":abc", ":"}
 	relRefs   = []string{"x.png", "./x.css", "../up/x.js", "a/b/c.png", "/abs/x.png", "/", "", "?q=1", "#f", "/keep/r.png", "/private/r.png",
-		"logout", "r%20s.png", "a:b", "x.pdf", "/doc.pdf", "..", ".", "?flag", "/y.png?flag", "z?a=b c"}
+		"logout", "r%20s.png", "a:b", "x.pdf", "/doc.pdf", "..", ".", "?flag", "/y.png?flag", "z?a=b c",
+		"/Private/report.pdf", "/docs/old.css", "/Docs/a.css", "?sessionID=1", "?sessionid=1", "LOGOUT", "/KEEP/r.png"}
 )
 
 func pick(r *Rng, l []string) string { return l[r.Intn(len(l))] }
@@ -183,10 +195,63 @@ const (
 	stGotChildren
 )
 
-func genTree(r *Rng, D int, big bool) *scNode {
+func swapCase(s string) string {
+	b := []byte(s)
+	for i, c := range b {
+		switch {
+		case c >= 'a' && c <= 'z':
+			b[i] = c - 32
+		case c >= 'A' && c <= 'Z':
+			b[i] = c + 32
+		}
+	}
+	return string(b)
+}
+
+// references planted for a configuration: every string filter inside a path or query, as typed
+// and with other letter case; every plain host filter with other letter case
+func plantsFor(in *scInput) []string {
+	var out []string
+	for _, f := range append(append([]string(nil), in.IS...), in.ES...) {
+		if f == "" || strings.ContainsAny(f, "#%@: ") {
+			continue
+		}
+		for _, v := range []string{f, swapCase(f), strings.ToLower(f), strings.ToUpper(f)} {
+			if strings.HasPrefix(v, "/") || strings.HasPrefix(v, "?") || strings.HasPrefix(v, ".") {
+				out = append(out, "/pl"+v+"t")
+			} else {
+				out = append(out, "/pl/"+v)
+			}
+		}
+	}
+	for _, f := range append(append([]string(nil), in.IH...), in.EH...) {
+		if f == "" || strings.ContainsAny(f, ":-") || strings.HasPrefix(f, "xn") || strings.ContainsAny(f, "0123456789") {
+			continue
+		}
+		sfx := ".example.com"
+		if strings.HasSuffix(f, ".") {
+			sfx = "example.com"
+		} else if strings.Contains(f, ".") {
+			sfx = ""
+		}
+		for _, v := range []string{f, swapCase(f), strings.ToUpper(f), strings.ToLower(f)} {
+			out = append(out, "http://"+v+sfx+"/pl/h.png")
+		}
+	}
+	return out
+}
+
+func genTree(r *Rng, D int, big bool, plants []string) *scNode {
 	uniq := 0
 	var used []string
 	leaf := func() *scNode {
+		if len(plants) > 0 && r.Chance(22) {
+			u := plants[r.Intn(len(plants))]
+			if D == 0 && strings.HasPrefix(u, "/") {
+				u = "https://www.example.com" + u
+			}
+			return &scNode{U: u}
+		}
 		if len(used) > 0 && r.Chance(10) {
 			return &scNode{U: used[r.Intn(len(used))]} // duplicate: DedupeItems
 		}
@@ -296,7 +361,7 @@ func genScope(r *Rng, i int, tier string) string {
 	default:
 		D = 3
 	}
-	in.T = genTree(r, D, r.Chance(25))
+	in.T = genTree(r, D, r.Chance(25), plantsFor(&in))
 	if D > 0 && r.Chance(4) {
 		makeInconsistent(r, in.T, D)
 	}
